@@ -55,9 +55,9 @@ LEAN_TARGETS = ['PxProofs.C04']
 THEOREMS = [
     'Px.Persist.C04_partial_forward', 'Px.Persist.C04_forward_relay', 'Px.Persist.C04_forward_segments',
     'Px.Persist.C04_partial_web', 'Px.Persist.C04_partial_reverse',
-    'Px.Persist.C04_witness_F1', 'Px.Persist.C04_witness_F1_followup', 'Px.Persist.C04_witness_F2',
-    'Px.Persist.C04_witness_F3', 'Px.Persist.C04_witness_F4',
-    'Px.Persist.frun_refines', 'Px.Persist.parse_portOk',
+    'Px.Persist.C04_regression_F1', 'Px.Persist.C04_regression_F1_followup', 'Px.Persist.C04_regression_F1_split',
+    'Px.Persist.C04_witness_F2', 'Px.Persist.C04_witness_F3', 'Px.Persist.C04_witness_F4',
+    'Px.Persist.frun_refines', 'Px.Persist.pipeLoop_stream', 'Px.Persist.loopSegs_all', 'Px.Persist.parse_portOk',
 ]
 RULE = ('fwd: 1..6 generated requests (methods, CL / chunked / no body, proxy-only headers) to 1..2 origins, packed '
         'one per segment / split anywhere inside a request / several per segment / cut anywhere, turned into tick '
@@ -74,16 +74,16 @@ ASSUMPTIONS = [
     'order" therefore rests on the origin answering the requests it reads in order on the single upstream '
     'connection (an assumption about origins, made by the oracle\'s scripted origins and by C04_forward_relay)',
     'response inspection (HttpProxyPlugin.response / pipeline_response parsers, inside try/except) is not modelled',
-    'C04_partial_forward / _web quantify over requests delivered so that no TCP segment holds bytes of two requests; '
-    'C04_partial_web additionally over requests whose path selects the first request\'s route plugin; '
-    'C04_partial_reverse over routes answered by the plugin itself (no upstream connection)',
+    'C04_partial_forward / _web / _reverse hold for every packing of the requests into TCP segments (fix 84c574d); '
+    'C04_partial_forward is over requests naming one origin, C04_partial_web over requests whose path selects the '
+    'first request\'s route plugin, C04_partial_reverse over routes answered by the plugin itself (no upstream)',
     'web / reverse models are segment-level (every flush complete); partial writes are C01 / C07',
     'handler-level reverse-proxy runs keep replaced upstream sockets open (the harness holds a reference); '
     'what the executor does after the replacement (descriptor number reuse) is exercised by the oracle only',
 ]
 EXHAUSTIVE = {}
-EXPLANATION = ('the partial theorems quantify over all request lists, segmentations (inside a request) and tick '
-               'schedules; the runs tie the model to the code, including on the four violated classes')
+EXPLANATION = ('the partial theorems quantify over all request lists, all packings into segments and all benign tick '
+               'schedules; the runs tie the model to the code, including on the three violated classes')
 NO_FORK = False
 
 logging.disable(logging.CRITICAL)
@@ -102,7 +102,7 @@ def _open_ids():
 
 
 OPEN = _open_ids()
-FINDING_IDS = ('D13a', 'D13b', 'D13c', 'D12')
+FINDING_IDS = ('D13b', 'D13c', 'D12')
 
 
 # --------------------------------------------------------------------------------------------
@@ -132,7 +132,7 @@ def packed(case):
 
 def diff_origin(case):
     rs = case['meta']['reqs']
-    return case['kind'] == 'fwd' and any(r['o'] != rs[0]['o'] for r in rs[1:])
+    return case['kind'] == 'fwd' and bool(rs) and any(r['o'] != rs[0]['o'] for r in rs[1:])
 
 
 def _route_of(plugins, path):
@@ -151,6 +151,8 @@ def diff_route(case):
     if case['kind'] != 'web':
         return False
     rs = case['meta']['reqs']
+    if not rs:
+        return False
     first = _route_of(case['plugins'], bytes.fromhex(rs[0]['t']))
     return first is not None and any(_route_of(case['plugins'], bytes.fromhex(r['t'])) != first for r in rs[1:])
 
@@ -161,8 +163,6 @@ def rev_keepalive(case):
 
 def finding_classes(case):
     out = []
-    if case['kind'] in ('fwd', 'web') and packed(case):
-        out.append('D13a')
     if diff_origin(case):
         out.append('D13b')
     if diff_route(case):
@@ -829,8 +829,6 @@ def oracle(case):
 
 
 FAILURES = {
-    'D13a': ('fwd-missing-response', 'fwd-torn-down', 'fwd-wrong-response', 'web-missing-response', 'web-torn-down',
-             'web-wrong-response'),
     'D13b': ('fwd-wrong-origin',),
     'D13c': ('web-wrong-route',),
     'D12': ('rev-connection-closed', 'rev-stalled'),
@@ -1196,7 +1194,6 @@ def _wit_rev(paths):
 def finding_witnesses():
     A, B = ORIGINS[0], ORIGINS[1]
     return {
-        'D13a': _wit_fwd([A, A], True),
         'D13b': _wit_fwd([A, B], False),
         'D13c': _wit_web([b'/a', b'/b'], [[r'/a$'], [r'/b$']], False),
         'D12': _wit_rev([b'/a', b'/a']),
@@ -1206,7 +1203,8 @@ def finding_witnesses():
 def corpus():
     A, B = ORIGINS[0], ORIGINS[1]
     cs = list(finding_witnesses().values())
-    cs.append(_wit_fwd([A, A, A], False))                       # the partial class: sequential, one origin
+    cs.append(_wit_fwd([A, A, A], False))                       # sequential, one origin
+    cs.append(_wit_fwd([A, A], True))                           # [A1+A2]: regression of fixed finding D13a
     cs.append(_wit_fwd([A, A, A], True))                        # F1: first + second in one segment
     m1, r1 = _simple('a.example', 80, b'/1')
     m2, r2 = _simple('a.example', 80, b'/2')
@@ -1221,6 +1219,9 @@ def corpus():
     cs.append(raw_fwd([b'GET / HTTP/1.1\r\nHost: x\r\n\r\n']))
     cs.append(raw_fwd([b'CONNECT b.example:443 HTTP/1.1\r\n\r\n', b'\x16\x03\x01hello']))
     cs.append(raw_fwd([r1], connect='refused'))
+    cs.append(raw_fwd([b'CONNECT b.example:443 HTTP/1.1\r\n\r\n\x16\x03\x01hello', b'more']))     # tunnel data glued to CONNECT
+    cs.append(raw_fwd([r1 + b'GARBAGE\r\n\r\n']))                                      # leftover that does not parse
+    cs.append(raw_fwd([r1 + r2 + b'GET http://a.example/x HTTP/1.1\r\nContent-Length: zz\r\n\r\n']))
     cs.append(raw_fwd([r1, b'GARBAGE\r\n\r\n']))
     cs.append(raw_fwd([r1, b'GET http://a.example/x HTTP/1.1\r\nContent-Length: zz\r\n\r\n']))
     cs.append(raw_fwd([r1, b'GET http://a.example/ws HTTP/1.1\r\nHost: a.example\r\nConnection: Upgrade\r\nUpgrade: websocket\r\n\r\n',
